@@ -77,6 +77,13 @@ def gen_case(rng, small=None):
             lines.append("msleep %d" % rng.choice([10, 40, 80]))
             listings += 1
             lines.append('jobs > "$D/jobs.%d" 2>&1' % listings)
+        if ph == 0 and n >= 3 and rng.random() < 0.35:
+            # job-spec waits in ascending order first (numbers are 1..n in the first phase); the plain `wait` that follows must
+            # still wait for every job, and the table must keep listing the live ones
+            for i in range(1, rng.randint(2, n - 1) + 1):
+                lines.append("wait %%%d" % i)
+            listings += 1
+            lines.append('jobs > "$D/jobs.%d" 2>&1' % listings)
         waits += 1
         lines.append("wait")
         lines.append('logline "$L" "WAITED %d $?"' % waits)
@@ -105,6 +112,9 @@ def permutation_cases():
                     ids.append("j%d" % (i + 1))
                 lines += ["wait", 'logline "$L" "WAITED 1 $?"', 'logline "$L" fg 1', "echo '@end'"]
                 out.append((lines, {"jobs": ids, "wait_expect": [ids], "fg": 1, "listings": 0}))
+                if n >= 3:
+                    l2 = lines[:n] + ["wait %%%d" % i for i in range(1, n)] + ['jobs > "$D/jobs.1" 2>&1'] + lines[n:]
+                    out.append((l2, {"jobs": ids, "wait_expect": [ids], "fg": 1, "listings": 1}))
     return out
 
 
